@@ -448,7 +448,35 @@ def w_rules(F, R):
                 R.ob("T-INVERSE", "required:" + v, t == w, F.loc(f), "lhs - rhs %s 0 requires the difference in %s; code: %s" % (v, w, t))
 
 
+def w_exact(F, R):
+    """W-EXACT: a term of an affine row may be discarded only when its coefficient is exactly 0: the
+    range of the variable is not known at that point, so a tiny coefficient times a wide range still
+    moves the row (tolerances are for comparing bounds, not for dropping terms)"""
+    n = 0
+    for f in F.fn_list:
+        if "body" not in f or not f["path"].startswith("transformers::bounds::AffineForm::"):
+            continue
+        for i in walk(f["body"]):
+            if i.get("k") == "If" and any(x.get("k") == "MCall" and x["name"] in ("shift_remove", "swap_remove", "remove") for x in walk(i["then"])):
+                n += 1
+                c = strip(i["cond"])
+                exact = c.get("k") == "Binary" and c["op"] == "==" and sexp(strip(c["b"])) == "0.0" and strip(c["a"]).get("k") in ("Path", "Unary")
+                R.fn(f["path"])
+                R.ob("W-EXACT", "%s:remove-if" % f["path"].rsplit("::", 1)[-1], exact, F.loc(f, i), "a coefficient is removed under `%s`; only an exact `== 0.0` test is sound here" % sexp(c))
+            if i.get("k") == "MCall" and i["name"] == "retain" and i["args"] and strip(i["args"][0]).get("k") == "Closure":
+                n += 1
+                body = strip(strip(i["args"][0])["body"])
+                last = body
+                if body.get("k") == "Block":
+                    last = strip(body.get("e") or {})
+                exact = last.get("k") == "Binary" and last["op"] == "!=" and sexp(strip(last["b"])) == "0.0"
+                R.fn(f["path"])
+                R.ob("W-EXACT", "%s:retain" % f["path"].rsplit("::", 1)[-1], exact, F.loc(f, i), "coefficients are kept under `%s`; only an exact `!= 0.0` test is sound here" % sexp(last))
+    R.ob("W-EXACT", "sites", n >= 2, "packages/rooc/src/transformers/bounds.rs", "expected the coefficient-removal sites of AffineForm::merge and ::scale, found %d" % n)
+
+
 def check(F, R):
+    w_exact(F, R)
     p_ivl(F, R)
     t_boundsof(F, R)
     t_inverse(F, R)
